@@ -420,6 +420,246 @@ Proof.
   split; [reflexivity|]. split; [reflexivity|]. intros sg. reflexivity.
 Qed.
 
+
+(* ================================================================================================ *)
+(* Part B: record-level meaning of the specification functions                                       *)
+(* ================================================================================================ *)
+
+(* ---- the record-level specification (over [rcd], [enc_rcds] of Parser/ReqWire.v) ---- *)
+
+(* what one record means for the stream [sg] of request [id] when the request has role [role].
+   [spec_cmp role t sg] (StreamSeqProofs.v) places a received input-stream type t relative to sg:
+   Eq = it is sg; Gt = it comes later in the role's order; Lt = it comes earlier, or is not a stream of
+   the role, or no stream is selected. *)
+Inductive rcd_effect :=
+| EBody (b : bytes)    (* contributes its body to the stream *)
+| ESkip                (* ignored as far as this stream is concerned *)
+| ETerminator          (* ends the stream: its empty record, or the first record of a later stream *)
+| EAbort.              (* AbortRequest of this request: the stream is cut off *)
+
+Definition rcd_effect_on (role id : N) (sg : option N) (r : rcd) : rcd_effect :=
+  if is_input_stream (rt r) && (rid r =? id) then
+    match spec_cmp role (rt r) sg with
+    | Eq => if len (rbody r) =? 0 then ETerminator else EBody (rbody r)
+    | Lt => ESkip
+    | Gt => ETerminator              (* held back for the next epoch *)
+    end
+  else if (rt r =? RT_AbortRequest) && (rid r =? id) then EAbort
+  else ESkip.                        (* management, unknown type, foreign id, stale Params, BeginRequest, ... *)
+
+(* (bytes of stream sg in the record list, whether the walk reached the end of the list without ending) *)
+Fixpoint content_walk (role id : N) (sg : option N) (rs : list rcd) : bytes * bool :=
+  match rs with
+  | [] => ([], true)
+  | r :: t =>
+    match rcd_effect_on role id sg r with
+    | EBody b => (b ++ fst (content_walk role id sg t), snd (content_walk role id sg t))
+    | ESkip => content_walk role id sg t
+    | ETerminator | EAbort => ([], false)
+    end
+  end.
+
+Definition content_rcds (role id : N) (sg : option N) (rs : list rcd) : bytes := fst (content_walk role id sg rs).
+Definition content_open (role id : N) (sg : option N) (rs : list rcd) : bool := snd (content_walk role id sg rs).
+
+(* a terminator of sg occurs before any AbortRequest of this request *)
+Fixpoint ended_rcds (role id : N) (sg : option N) (rs : list rcd) : bool :=
+  match rs with
+  | [] => false
+  | r :: t =>
+    match rcd_effect_on role id sg r with
+    | EBody _ | ESkip => ended_rcds role id sg t
+    | ETerminator => true
+    | EAbort => false
+    end
+  end.
+
+(* (replies owed for the records up to the first AbortRequest of this request, whether none was met) *)
+Fixpoint replies_walk (maxc id : N) (rs : list rcd) : bytes * bool :=
+  match rs with
+  | [] => ([], true)
+  | r :: t =>
+    if (rt r =? RT_AbortRequest) && (rid r =? id) then ([], false)
+    else (reply_for maxc (InStream id) r ++ fst (replies_walk maxc id t), snd (replies_walk maxc id t))
+  end.
+
+Definition replies_rcds (maxc id : N) (rs : list rcd) : bytes := fst (replies_walk maxc id rs).
+Definition replies_open (maxc id : N) (rs : list rcd) : bool := snd (replies_walk maxc id rs).
+
+(* a selection is either nothing or an input-stream type (Option<Stream>) *)
+Definition sel_ok (sg : option N) : Prop :=
+  match sg with Some s => is_input_stream s = true | None => True end.
+
+(* ---- cmp_input_streams is spec_cmp, for EVERY role value ---- *)
+Lemma cmp_spec_all role t sg : is_input_stream t = true -> sel_ok sg ->
+  cmp_input_streams role t sg = Some (spec_cmp role t sg).
+Proof.
+  intros Ht Hs. destruct sg as [s|]; [|reflexivity]. cbn [sel_ok] in Hs.
+  apply is_input_cases in Ht. apply is_input_cases in Hs.
+  unfold cmp_input_streams, spec_cmp.
+  destruct (role_streams_cases role) as [Hr|[Hr|Hr]]; rewrite Hr;
+    destruct Ht as [-> | ->]; destruct Hs as [-> | ->]; vm_compute; reflexivity.
+Qed.
+
+Lemma unknown_not_special t : known_type t = false ->
+  is_input_stream t = false /\ (t =? RT_AbortRequest) = false /\ (t =? RT_BeginRequest) = false /\
+  (t =? RT_GetValues) = false.
+Proof.
+  intros H.
+  split. { destruct (is_input_stream t) eqn:E; [|reflexivity].
+           apply is_input_cases in E. destruct E as [-> | ->]; discriminate H. }
+  split. { destruct (N.eqb_spec t RT_AbortRequest) as [->|_]; [discriminate H|reflexivity]. }
+  split. { destruct (N.eqb_spec t RT_BeginRequest) as [->|_]; [discriminate H|reflexivity]. }
+  destruct (N.eqb_spec t RT_GetValues) as [->|_]; [discriminate H|reflexivity].
+Qed.
+
+Lemma enc_rcds_cons r rs : enc_rcds (r :: rs) = enc_rcd r ++ enc_rcds rs.
+Proof. reflexivity. Qed.
+
+Lemma enc_rcd_app r w : enc_rcd r ++ w = hdr8 r ++ rbody r ++ rpad r ++ w.
+Proof. rewrite enc_rcd_eq, <- !app_assoc. reflexivity. Qed.
+
+Lemma len_hdr8_app r w : HEADER_LEN <= len (hdr8 r ++ w).
+Proof. rewrite len_app, len_hdr8. unfold HEADER_LEN. lia. Qed.
+
+Section RecordLevel.
+Variable maxc : N.
+Variable role id : N.
+Notation CF := (CF role id).
+Notation RA := (RA maxc id).
+
+(* a whole record body + padding lying in front *)
+Lemma CF_body sg cur b q w :
+  CF sg cur (len b) (len q) (b ++ q ++ w) = (if cur then b else []) ++ CF sg false 0 0 w.
+Proof.
+  rewrite (CF_adv role id sg cur (len b) (len q) (b ++ q ++ w) (len b)) by (rewrite ?len_app; lia).
+  rewrite take_len_app, drop_len_app, N.sub_diag.
+  rewrite (CF_pad_adv role id sg cur (len q) (q ++ w) (len q)) by (rewrite ?len_app; lia).
+  rewrite drop_len_app, N.sub_diag, (CF_cur0 role id sg cur). reflexivity.
+Qed.
+
+Lemma RA_body0 st q w : RA st 0 (len q) (q ++ w) = RA SSkip 0 0 w.
+Proof.
+  rewrite (RA_pad_adv maxc id st (len q) (q ++ w) (len q)) by (rewrite ?len_app; lia).
+  rewrite drop_len_app, N.sub_diag. apply RA_st0.
+Qed.
+
+Lemma RA_body st b q w : 0 < len b ->
+  RA st (len b) (len q) (b ++ q ++ w) = resp maxc st b ++ RA SSkip 0 0 w.
+Proof.
+  intros Hb.
+  rewrite (RA_adv_full maxc id st SSkip (len b) (len q) (b ++ q ++ w)) by (rewrite ?len_app; lia).
+  rewrite take_len_app, drop_len_app, RA_body0. reflexivity.
+Qed.
+
+Lemma RA_body_nv st b q w : not_values st ->
+  RA st (len b) (len q) (b ++ q ++ w) = RA SSkip 0 0 w.
+Proof.
+  intros Hst. destruct (N.eq_dec (len b) 0) as [Hz|Hz].
+  - rewrite Hz. rewrite (len_zero_nil b Hz). cbn [app]. apply RA_body0.
+  - rewrite RA_body by lia. rewrite (resp_not_values maxc st b Hst). reflexivity.
+Qed.
+
+(* ---- one record ---- *)
+Lemma CF_record sg r w : rcd_ok r -> sel_ok sg ->
+  CF sg false 0 0 (enc_rcd r ++ w) =
+  match rcd_effect_on role id sg r with
+  | EBody b => b ++ CF sg false 0 0 w
+  | ESkip => CF sg false 0 0 w
+  | ETerminator | EAbort => []
+  end.
+Proof.
+  intros Hr Hs. rewrite enc_rcd_app.
+  rewrite CF_head by apply len_hdr8_app. rewrite take8_hdr8, drop8_hdr8.
+  unfold cf_hd. rewrite (hdr_decode_hdr8 r Hr). unfold rcd_effect_on.
+  destruct (known_type (rt r)) eqn:Hk.
+  - destruct (is_input_stream (rt r) && (rid r =? id)) eqn:Hin.
+    + apply andb_true_iff in Hin. destruct Hin as [Hin _].
+      rewrite (cmp_spec_all role (rt r) sg Hin Hs).
+      destruct (spec_cmp role (rt r) sg).
+      * rewrite CF_body. reflexivity.
+      * destruct (len (rbody r) =? 0); [reflexivity|]. rewrite CF_body. reflexivity.
+      * reflexivity.
+    + destruct ((rt r =? RT_AbortRequest) && (rid r =? id)); [reflexivity|].
+      rewrite CF_body. reflexivity.
+  - destruct (unknown_not_special _ Hk) as (-> & -> & _ & _). cbn [andb].
+    destruct (hdr8_fields r Hr) as (_ & -> & ->). rewrite CF_body. reflexivity.
+Qed.
+
+Lemma RA_record st r w : rcd_ok r ->
+  RA st 0 0 (enc_rcd r ++ w) =
+  if (rt r =? RT_AbortRequest) && (rid r =? id) then []
+  else reply_for maxc (InStream id) r ++ RA SSkip 0 0 w.
+Proof.
+  intros Hr. rewrite enc_rcd_app.
+  rewrite RA_head by apply len_hdr8_app. rewrite take8_hdr8, drop8_hdr8.
+  unfold ra_hd. rewrite (hdr_decode_hdr8 r Hr). unfold reply_for.
+  destruct (known_type (rt r)) eqn:Hk; cbn [negb].
+  - destruct ((rt r =? RT_AbortRequest) && (rid r =? id)) eqn:Hab; [reflexivity|].
+    rewrite gv_cond.
+    destruct (N.eqb_spec (rt r) RT_BeginRequest) as [Hb|Hb].
+    + rewrite Hb. change (RT_BeginRequest =? RT_GetValues) with false. cbn [andb].
+      destruct (negb (rid r =? id)).
+      * rewrite RA_body_nv by exact I. reflexivity.
+      * rewrite RA_body_nv by exact I. reflexivity.
+    + cbn [andb]. destruct ((rt r =? RT_GetValues) && (rid r =? 0)) eqn:Hgv.
+      * destruct (N.eqb_spec (len (rbody r)) 0) as [Hz|Hz].
+        -- rewrite Hz. rewrite (len_zero_nil _ Hz). cbn [app]. rewrite RA_body0. reflexivity.
+        -- rewrite RA_body by lia. reflexivity.
+      * rewrite RA_body_nv by exact I. reflexivity.
+  - destruct (unknown_not_special _ Hk) as (_ & -> & _ & _). cbn [andb].
+    destruct (hdr8_fields r Hr) as (-> & -> & ->). rewrite RA_body_nv by exact I. reflexivity.
+Qed.
+
+(* ---- a record list followed by arbitrary bytes ---- *)
+Theorem CF_rcds sg rs t : Forall rcd_ok rs -> sel_ok sg ->
+  CF sg false 0 0 (enc_rcds rs ++ t) =
+  content_rcds role id sg rs ++ (if content_open role id sg rs then CF sg false 0 0 t else []).
+Proof.
+  intros Hrs Hs. unfold content_rcds, content_open.
+  induction Hrs as [|r rs Hr Hrs IH].
+  - reflexivity.
+  - rewrite enc_rcds_cons, <- app_assoc. rewrite (CF_record sg r _ Hr Hs). cbn [content_walk].
+    destruct (rcd_effect_on role id sg r); cbn [fst snd].
+    + rewrite IH, app_assoc. reflexivity.
+    + exact IH.
+    + reflexivity.
+    + reflexivity.
+Qed.
+
+Theorem RA_rcds st rs t : Forall rcd_ok rs ->
+  RA st 0 0 (enc_rcds rs ++ t) =
+  replies_rcds maxc id rs ++ (if replies_open maxc id rs then RA SSkip 0 0 t else []).
+Proof.
+  intros Hrs. unfold replies_rcds, replies_open. revert st.
+  induction Hrs as [|r rs Hr Hrs IH]; intros st.
+  - cbn [enc_rcds flat_map replies_walk fst snd app]. apply RA_st0.
+  - rewrite enc_rcds_cons, <- app_assoc. rewrite (RA_record st r _ Hr). cbn [replies_walk].
+    destruct ((rt r =? RT_AbortRequest) && (rid r =? id)); cbn [fst snd]; [reflexivity|].
+    rewrite IH, app_assoc. reflexivity.
+Qed.
+End RecordLevel.
+
+(* the replies named in the task, record by record (reading aid for [reply_for _ (InStream id)]) *)
+Lemma reply_for_stream_cases maxc id r : rcd_ok r ->
+  (known_type (rt r) = false -> reply_for maxc (InStream id) r = unk_record (rt r) (rid r)) /\
+  (rt r = RT_GetValues -> rid r = 0 -> rbody r <> [] ->
+     reply_for maxc (InStream id) r = write_response (vars_of_pairs 0 (fst (nv_run (rbody r)))) maxc) /\
+  (rt r = RT_GetValues -> rid r = 0 -> rbody r = [] -> reply_for maxc (InStream id) r = []) /\
+  (rt r = RT_BeginRequest -> rid r <> id -> reply_for maxc (InStream id) r = end_record 0 PS_CantMpxConn (rid r)).
+Proof.
+  intros Hr. unfold reply_for, gv_reply.
+  split. { intros ->. reflexivity. }
+  split. { intros -> -> Hne. change (known_type RT_GetValues) with true. cbn [negb].
+           rewrite !N.eqb_refl. cbn [andb].
+           destruct (N.eqb_spec (len (rbody r)) 0) as [Hz|_]; [|reflexivity].
+           exfalso. apply Hne. apply len_zero_nil. exact Hz. }
+  split. { intros -> -> ->. reflexivity. }
+  intros -> Hne. change (known_type RT_BeginRequest) with true. cbn [negb].
+  change (RT_BeginRequest =? RT_GetValues) with false. cbn [andb].
+  rewrite N.eqb_refl. destruct (N.eqb_spec (rid r) id) as [E|_]; [contradiction|reflexivity].
+Qed.
+
 Print Assumptions sparse_call.
 Print Assumptions concrete_schedule_law.
 Print Assumptions concrete_schedule.
@@ -428,3 +668,5 @@ Print Assumptions set_stream_no_panic.
 Print Assumptions set_stream_later.
 Print Assumptions into_stream_parser_inv.
 Print Assumptions into_stream_parser_targets.
+Print Assumptions CF_rcds.
+Print Assumptions RA_rcds.
